@@ -317,35 +317,193 @@ func gen(tier string, r *lib.Rand, emit func(string)) {
 	}
 }
 
+// ---------- storage shapes ----------
+//
+// Go slices alias: a function that appends into (or writes through) an argument can corrupt
+// storage the caller still holds even when the returned value looks right.  Every case is therefore
+// also run with its chain / program arguments laid out differently:
+//   shape 0  exact capacity (fresh slice)
+//   shape 1  spare capacity: make(len, cap+3), the tail holds nil / zero ops
+//   shape 2  prefix full[:len] of a longer chain or program with live elements behind it
+//   shape 3  like 1, and the second chain argument re-uses the first one's *big.Int elements
+// and the watcher checks afterwards that the whole backing array (up to cap) and every element value
+// are what they were.  The result line must not depend on the shape.
+
+type watch struct {
+	fulls [][]*big.Int // full-capacity views of every chain handed out
+	ptrs  [][]*big.Int // element pointers at hand-out time
+	vals  [][]*big.Int // element values at hand-out time (nil stays nil)
+	pf    []addchain.Program
+	pv    []addchain.Program
+}
+
+// chain lays xs out in the given shape; with shape 3 its elements are first replaced by the
+// equal-valued element objects of shareWith.
+func (w *watch) chain(xs []*big.Int, shape int, shareWith ...[]*big.Int) []*big.Int {
+	if shape == 3 {
+		xs = append([]*big.Int{}, xs...)
+		for _, o := range shareWith {
+			share(xs, o)
+		}
+	}
+	var full []*big.Int
+	switch shape {
+	case 1, 3:
+		full = make([]*big.Int, len(xs)+3)
+		copy(full, xs)
+	case 2:
+		full = make([]*big.Int, len(xs), len(xs)+3)
+		copy(full, xs)
+		for k := int64(0); k < 3; k++ {
+			full = append(full, big.NewInt(1000003+k))
+		}
+	default:
+		full = make([]*big.Int, len(xs))
+		copy(full, xs)
+	}
+	arg := full[:len(xs):len(full)]
+	if w != nil {
+		w.fulls = append(w.fulls, full)
+		w.ptrs = append(w.ptrs, append([]*big.Int{}, full...))
+		vs := make([]*big.Int, len(full))
+		for i, x := range full {
+			if x != nil {
+				vs[i] = new(big.Int).Set(x)
+			}
+		}
+		w.vals = append(w.vals, vs)
+	}
+	return arg
+}
+
+func (w *watch) prog(p addchain.Program, shape int) addchain.Program {
+	var full addchain.Program
+	switch shape {
+	case 1, 3:
+		full = make(addchain.Program, len(p)+3)
+		copy(full, p)
+	case 2:
+		full = append(append(addchain.Program{}, p...), addchain.Op{I: 77, J: 78}, addchain.Op{I: 79, J: 80}, addchain.Op{I: 81, J: 82})
+	default:
+		full = append(addchain.Program{}, p...)
+	}
+	arg := full[:len(p):len(full)]
+	if w != nil {
+		w.pf = append(w.pf, full)
+		w.pv = append(w.pv, append(addchain.Program{}, full...))
+	}
+	return arg
+}
+
+// share makes b re-use a's element objects wherever the values coincide.
+func share(b, a []*big.Int) {
+	for i, y := range b {
+		for _, x := range a {
+			if y != nil && x != nil && x.Cmp(y) == 0 {
+				b[i] = x
+				break
+			}
+		}
+	}
+}
+
+func (w *watch) check() string {
+	for n, full := range w.fulls {
+		for i := range full {
+			if full[i] != w.ptrs[n][i] {
+				return fmt.Sprintf("argument storage overwritten: slot %d of the backing array of chain argument %d now holds another element", i, n)
+			}
+			if full[i] != nil && full[i].Cmp(w.vals[n][i]) != 0 {
+				return fmt.Sprintf("argument element modified in place: slot %d of chain argument %d", i, n)
+			}
+		}
+	}
+	for n, full := range w.pf {
+		for i := range full {
+			if full[i] != w.pv[n][i] {
+				return fmt.Sprintf("argument storage overwritten: op slot %d of program argument %d", i, n)
+			}
+		}
+	}
+	return ""
+}
+
+func panicClass(v interface{}) string {
+	if e, ok := v.(runtime.Error); ok {
+		m := e.Error()
+		if strings.Contains(m, "index out of range") || strings.Contains(m, "slice bounds out of range") {
+			return "index"
+		}
+	}
+	return "other"
+}
+
+func safely(f func() string) (res string) {
+	defer func() {
+		if v := recover(); v != nil {
+			res = "panic " + panicClass(v)
+		}
+	}()
+	return f()
+}
+
+// shapeCheck re-runs the case in other storage shapes: same result line, no storage touched.
+func shapeCheck(c, res string, shapes []int) string {
+	for _, sh := range shapes {
+		w := &watch{}
+		got := safely(func() string { return runShaped(c, sh, w) })
+		if got != res {
+			return fmt.Sprintf("result depends on how the argument is stored (shape %d): %s instead of %s", sh, got, res)
+		}
+		if msg := w.check(); msg != "" {
+			return fmt.Sprintf("%s (shape %d)", msg, sh)
+		}
+	}
+	return ""
+}
+
+func pickShape(c string) int {
+	h := uint32(2166136261)
+	for i := 0; i < len(c); i++ {
+		h = (h ^ uint32(c[i])) * 16777619
+	}
+	return 1 + int(h%3)
+}
+
 // ---------- implementation ----------
 
-func run(c string) string {
+func run(c string) string { return runShaped(c, 0, nil) }
+
+func runShaped(c string, shape int, w *watch) string {
 	f := strings.Split(c, " ")
+	if f[0] == "evaluate" {
+		return "ok " + lib.HexList(w.prog(decOps(f[1]), shape).Evaluate())
+	}
+	seq := addchain.Chain(w.chain(lib.ParseHexList(f[1]), shape))
 	switch f[0] {
 	case "validate":
-		return unitResult(addchain.Chain(lib.ParseHexList(f[1])).Validate())
+		return unitResult(seq.Validate())
 	case "asc":
-		return "ok " + lib.Bool(addchain.Chain(lib.ParseHexList(f[1])).IsAscending())
+		return "ok " + lib.Bool(seq.IsAscending())
 	case "produces":
-		return unitResult(addchain.Chain(lib.ParseHexList(f[1])).Produces(lib.ParseHex(f[2])))
+		t := w.chain([]*big.Int{lib.ParseHex(f[2])}, shape, seq)
+		return unitResult(seq.Produces(t[0]))
 	case "superset":
-		return unitResult(addchain.Chain(lib.ParseHexList(f[1])).Superset(lib.ParseHexList(f[2])))
+		return unitResult(seq.Superset(w.chain(lib.ParseHexList(f[2]), shape, seq)))
 	case "ops":
-		return "ok " + encOps(addchain.Chain(lib.ParseHexList(f[1])).Ops(lib.Atoi(f[2])))
+		return "ok " + encOps(seq.Ops(lib.Atoi(f[2])))
 	case "op":
-		o, err := addchain.Chain(lib.ParseHexList(f[1])).Op(lib.Atoi(f[2]))
+		o, err := seq.Op(lib.Atoi(f[2]))
 		if err != nil {
 			return "err " + errClass(err)
 		}
 		return "ok " + encOps([]addchain.Op{o})
 	case "program":
-		p, err := addchain.Chain(lib.ParseHexList(f[1])).Program()
+		p, err := seq.Program()
 		if err != nil {
 			return "err " + errClass(err)
 		}
 		return "ok " + encOps(p)
-	case "evaluate":
-		return "ok " + lib.HexList(decOps(f[1]).Evaluate())
 	}
 	panic("unknown case " + c)
 }
@@ -425,6 +583,19 @@ func accept(res string, want bool, what string) string {
 }
 
 func oracle(c, res string) string {
+	if msg := oracle1(c, res); msg != "" {
+		return msg
+	}
+	f := strings.Split(c, " ")
+	if (f[0] == "ops" || f[0] == "op") && strings.HasPrefix(res, "panic") {
+		// a position outside the sequence: with spare capacity c[:k] succeeds and Go reads the slots
+		// behind the slice (nil elements); outside the property, not compared across shapes
+		return ""
+	}
+	return shapeCheck(c, res, []int{pickShape(c)})
+}
+
+func oracle1(c, res string) string {
 	f := strings.Split(c, " ")
 	if f[0] == "evaluate" {
 		p := decOps(f[1])
@@ -584,6 +755,70 @@ func oracle(c, res string) string {
 	return ""
 }
 
+// ---------- neighbours (hunt mode) ----------
+
+func perturbSeq(s string, r *lib.Rand) string {
+	xs := lib.ParseHexList(s)
+	if len(xs) == 0 {
+		return "1"
+	}
+	switch r.Intn(4) {
+	case 0:
+		i := r.Intn(len(xs))
+		xs[i] = new(big.Int).Add(xs[i], big.NewInt(int64(r.Range(-2, 2))))
+	case 1:
+		i, j := r.Intn(len(xs)), r.Intn(len(xs))
+		xs[i], xs[j] = xs[j], xs[i]
+	case 2:
+		i, j := r.Intn(len(xs)), r.Intn(len(xs))
+		xs = append(xs, new(big.Int).Add(xs[i], xs[j]))
+	default:
+		xs = xs[:len(xs)-1]
+	}
+	return lib.HexList(xs)
+}
+
+func neighbours(c string, r *lib.Rand, emit func(string)) {
+	f := strings.Split(c, " ")
+	for t := 0; t < 12; t++ {
+		if f[0] == "evaluate" {
+			p := decOps(f[1])
+			if len(p) == 0 || r.Chance(1, 5) {
+				k := len(p)
+				p = append(p, addchain.Op{I: r.Intn(k + 1), J: r.Intn(k + 1)})
+			} else {
+				k := r.Intn(len(p))
+				if r.Bool() {
+					p[k].I = r.Intn(k + 2)
+				} else {
+					p[k].J = r.Intn(k + 2)
+				}
+			}
+			emit("evaluate " + encOps(p))
+			continue
+		}
+		seq := perturbSeq(f[1], r)
+		n := strings.Count(seq, ",") + 1
+		switch f[0] {
+		case "validate", "asc", "program":
+			emit(f[0] + " " + seq)
+		case "ops", "op":
+			if r.Bool() {
+				emit(fmt.Sprintf("%s %s %d", f[0], f[1], r.Intn(strings.Count(f[1], ",")+1)))
+			} else {
+				emit(fmt.Sprintf("%s %s %d", f[0], seq, r.Intn(n)))
+			}
+		case "produces":
+			xs := lib.ParseHexList(seq)
+			emit("produces " + seq + " " + lib.Hex(xs[len(xs)-1]))
+			emit("produces " + seq + " " + f[2])
+		case "superset":
+			emit("superset " + seq + " " + f[2])
+			emit("superset " + f[1] + " " + perturbSeq(f[2], r))
+		}
+	}
+}
+
 func nontrivial(c, res string) bool {
 	f := strings.Split(c, " ")
 	if f[0] == "evaluate" {
@@ -600,14 +835,7 @@ func main() {
 		Run:        run,
 		Oracle:     oracle,
 		Nontrivial: nontrivial,
-		PanicClass: func(v interface{}) string {
-			if e, ok := v.(runtime.Error); ok {
-				m := e.Error()
-				if strings.Contains(m, "index out of range") || strings.Contains(m, "slice bounds out of range") {
-					return "index"
-				}
-			}
-			return "other"
-		},
+		PanicClass: panicClass,
+		Neighbours: neighbours,
 	})
 }
